@@ -273,3 +273,50 @@ Definition roundtrip_function_range (header : list line) (func : T -> T) (xmin x
 End Model.
 
 Arguments Num {T}. Arguments Word {T}.
+
+(** ** Part 3.  Sessions: several calls of the export / import functions in one process.
+
+    The files are state outside the functions: a file system maps a path (identified by a number: distinct numbers,
+    distinct files) to its content.  Export_* opens its path with std::ofstream::open, which truncates: whatever the path
+    held before — a longer file, a file of another kind — is gone, the new content is exactly what one call writes.
+    Import_* and Count_Lines read the file at their path and leave every file as it is.  A call that terminates the
+    process (std::exit) ends the session: no later call answers. *)
+Section Sessions.
+Context {T : Type} (Ops : NumOps T).
+Variable fmt6 : T -> T.
+
+Definition fsys := list (nat * @file T).
+Fixpoint fs_get (fs : fsys) (p : nat) : option (@file T) :=
+  match fs with
+  | [] => None
+  | (q, f) :: tl => if Nat.eqb p q then Some f else fs_get tl p
+  end.
+Definition fs_put (fs : fsys) (p : nat) (f : @file T) : fsys := (p, f) :: fs.
+
+Inductive io_op :=
+| OExportList (p : nat) (header : list (@line T)) (data : list T) (dim : T)
+| OExportTable (p : nat) (header : list (@line T)) (data : list (list T)) (dims : list T)
+| OImportList (p : nat) (dim : T) (ignored : nat)
+| OImportTable (p : nat) (dims : list T) (ignored : nat)
+| OCountLines (p : nat).
+
+Inductive io_out := RUnit | RList (l : list T) | RTable (t : list (list T)) | RCount (n : Z).
+
+Definition io_step (fs : fsys) (o : io_op) : res (fsys * io_out) :=
+  match o with
+  | OExportList p h data dim => Ok (fs_put fs p (export_list Ops fmt6 h data dim), RUnit)
+  | OExportTable p h data dims => rbind (export_table Ops fmt6 h data dims) (fun f => Ok (fs_put fs p f, RUnit))
+  | OImportList p dim ign => rbind (import_list Ops (fs_get fs p) dim ign) (fun l => Ok (fs, RList l))
+  | OImportTable p dims ign => rbind (import_table Ops (fs_get fs p) dims ign) (fun t => Ok (fs, RTable t))
+  | OCountLines p => Ok (fs, RCount (count_lines (fs_get fs p)))
+  end.
+
+Fixpoint io_run (fs : fsys) (ops : list io_op) : res (fsys * list io_out) :=
+  match ops with
+  | [] => Ok (fs, [])
+  | o :: tl => rbind (io_step fs o) (fun r => rbind (io_run (fst r) tl) (fun s => Ok (fst s, snd r :: snd s)))
+  end.
+
+Definition writes (o : io_op) : option nat :=
+  match o with OExportList p _ _ _ | OExportTable p _ _ _ => Some p | _ => None end.
+End Sessions.
